@@ -1037,6 +1037,11 @@ void Router::rerouteAndCallbackConnectors(void)
 
     for (ConnRefList::const_iterator i = connRefs.begin(); i != fin; ++i) 
     {
+        if ((*i)->hasFixedRoute())
+        {
+            // Not rerouted below, so it keeps the pins its route ends at.
+            continue;
+        }
         (*i)->freeActivePins();
     }
 
